@@ -815,6 +815,7 @@ func c09deadline(c *Ctx, a *alphAnchors) {
 		return false
 	}
 	n := 0
+	endpoints := map[string]bool{}
 	for _, f := range p.SrcFuncs(pkgAlph) {
 		eachInstr(f, func(i ssa.Instruction) {
 			cl, ok := i.(*ssa.Call)
@@ -830,8 +831,12 @@ func c09deadline(c *Ctx, a *alphAnchors) {
 				return
 			}
 			n++
+			endpoints[callee.Name()] = true
 			R.Check("C09.deadline", R.Key("C09.deadline", shortFn(f), "request:"+callee.Name()), c.rel(p.Pos(cl.Pos())), "the node request is built on the deadline-bound context of Client.timeoutContext", bound(cl.Call.Args[1], 0), "context = "+facts.Term(cl.Call.Args[1])+": without the per-request deadline a silent node blocks the fetch loop for ever (nothing reaches errC, nothing restarts)")
 		})
 	}
-	R.Floor("C09.deadline.requests", n, 11)
+	// (the number of distinct node endpoints used, not of call sites: two client methods that
+	// share one request builder are one site)
+	_ = n
+	R.Floor("C09.deadline.endpoints", len(endpoints), 10)
 }
